@@ -1,7 +1,8 @@
 (* C07 — validation and hierarchy operators report exactly the failing datapoints.
    Statements over Model/Validation.v (list functions over Model/Expr.dset), unbounded in datapoints, rules and groups.
-   `d_check`, `d_hierarchy` follow the VTL manual; `d_check_impl`, `d_hierarchy_impl` the engine where it was observed to
-   differ (…_refuted with a witness, …_partial with the hypothesis under which the engine variant meets the statement). *)
+   `d_check`, `d_hierarchy` follow the VTL manual; `d_check_impl`, `d_hierarchy_impl` are the engine (…_refuted with a witness
+   and …_partial with the hypothesis under which the engine variant meets the statement, where it differs);
+   `d_check_before_fix` is the engine before the repair of the imbalance join, kept as a regression witness. *)
 From Coq Require Import ZArith QArith String List Bool Permutation.
 Import ListNotations.
 From VTL Require Import Base.Val Model.Table Model.Scalar Model.Expr Model.Validation
@@ -54,21 +55,24 @@ Theorem C07_check_imbalance_is_diff : forall cmp a b o i ec el inv res m,
       snd r = [bv; iv; err_if_false bv ec; err_if_false bv el].
 Proof. exact check_imbalance_is_diff. Qed.
 
-(* the engine (inner join with the imbalance operand): the statements above fail … *)
-Theorem C07_check_impl_invalid_exact_refuted :
+(* the engine follows the manual (since the repair: LEFT JOIN with the imbalance operand), so every statement above holds for it *)
+Theorem C07_check_impl_eq_spec : forall op imb ec el inv, d_check_impl op imb ec el inv = d_check op imb ec el inv.
+Proof. exact check_impl_eq_spec. Qed.
+(* regression witness — the engine before the repair (inner join): the statements above failed … *)
+Theorem C07_check_before_fix_invalid_exact_refuted :
   exists op imb ec el res r,
-    d_check_impl op (Some imb) ec el true = Ok res /\ In r (d_rows op) /\ snd r = [VBool false] /\
+    d_check_before_fix op (Some imb) ec el true = Ok res /\ In r (d_rows op) /\ snd r = [VBool false] /\
     has_key (fst r) (d_rows res) = false.
 Proof.
   exists (mkD ["Id_1"] ["bool_var"] [([VInt 1], [VBool false]); ([VInt 4], [VBool false])]),
          (mkD ["Id_1"] ["Me_1"] [([VInt 1], [VInt 2])]), (VStr "x"), VNull.
   eexists. exists ([VInt 4], [VBool false]). vm_compute. repeat split; auto.
 Qed.
-(* … and hold as soon as every datapoint of the operand has a partner in the imbalance operand *)
-Theorem C07_check_impl_partial : forall op imb ec el inv,
+(* … and held only when every datapoint of the operand has a partner in the imbalance operand *)
+Theorem C07_check_before_fix_partial : forall op imb ec el inv,
   (forall r, In r (d_rows op) -> imb_of imb (fst r) <> None) ->
-  d_check_impl op imb ec el inv = d_check op imb ec el inv.
-Proof. exact check_impl_eq_spec. Qed.
+  d_check_before_fix op imb ec el inv = d_check op imb ec el inv.
+Proof. exact check_before_fix_eq_spec. Qed.
 
 (* ================================================================= check_datapoint *)
 (* a rule fails on a datapoint iff its antecedent (when present) is TRUE and its condition is FALSE *)
@@ -302,8 +306,9 @@ Print Assumptions C07_check_invalid_is_false_part_of_all.
 Print Assumptions C07_check_errorcode_iff_false.
 Print Assumptions C07_errorcode_iff_false.
 Print Assumptions C07_check_imbalance_is_diff.
-Print Assumptions C07_check_impl_invalid_exact_refuted.
-Print Assumptions C07_check_impl_partial.
+Print Assumptions C07_check_impl_eq_spec.
+Print Assumptions C07_check_before_fix_invalid_exact_refuted.
+Print Assumptions C07_check_before_fix_partial.
 Print Assumptions C07_rule_fails_iff.
 Print Assumptions C07_dp_invalid_exact.
 Print Assumptions C07_dp_all_complete.
